@@ -92,9 +92,13 @@ def _make_condition(fn, clause_fn, argnames):
     def condition(**kw):
         STATE["evals"][fn] += 1
         clause = clause_fn(*[kw[a] for a in argnames])
+        if fn == "_fractional_abundance_point":
+            STATE["inner_ok"] = clause is None
         if clause is None:
             return True
-        info = {"lsq_status": last_status()}
+        # solver_suspect: the failure may stem from the bounded-TRF path (inner helper itself, or inner postcondition failed)
+        suspect = last_status() in TRF_STATUSES and (fn == "_fractional_abundance_point" or STATE.get("inner_ok") is False)
+        info = {"lsq_status": last_status(), "solver_suspect": bool(suspect)}
         if STATE["mode"] == "record":
             STATE["failures"].append({"fn": fn, "clause": clause, "info": info})
             return True
